@@ -89,9 +89,53 @@ fn scenario_for(content: Content, fault: Option<Fault>, prop: &str) -> Scenario 
     sc
 }
 
+/// Well-formed zones whose counts cross the 8- and 16-bit boundaries (a count kept in too narrow
+/// a type, or a size computed in one, only shows there), and string tables with unused bytes.
+fn huge_catalogue() -> Vec<crate::spec::ZoneSpec> {
+    use crate::spec::{TypeSpec, ZoneSpec};
+    let ty = |off: i32, dst: bool, d: &str| TypeSpec { off, dst, desig: d.as_bytes().to_vec(), isstd: false, isut: false };
+    let few = vec![ty(3600, false, "CET"), ty(7200, true, "CEST"), ty(-18000, false, "EST"), ty(0, false, "UTC")];
+    let mut out = Vec::new();
+    for version in [1u8, 2, 3] {
+        for ntrans in [65_535usize, 65_536, 65_537, 70_001, 131_075] {
+            let trans: Vec<(i64, u8)> = (0..ntrans as i64).map(|i| (-2_000_000_000 + i * 30_000 + (i * i) % 7, ((i * 7 + i / 3) % 4) as u8)).collect();
+            out.push(ZoneSpec { version, types: few.clone(), trans, leaps: vec![], rule: None, rule_style: 0, desig_mode: (ntrans % 2) as u8, indicators: (ntrans % 4) as u8, decoy: if version == 2 { 5 } else { 0 } });
+        }
+        for nleaps in [255usize, 256, 257, 700, 65_536, 65_537] {
+            if version == 1 && nleaps > 800 {
+                continue;
+            }
+            let leaps: Vec<(i64, i32)> = (0..nleaps as i64).map(|i| (78_796_800 + i * 2_500_000 + (i % 5) * 10_000, if nleaps % 2 == 0 { 1 + (i % 2) as i32 } else { -(1 + (i % 2) as i32) })).collect();
+            out.push(ZoneSpec { version, types: few.clone(), trans: vec![(-1_000, 1), (86_400 * 400, 0), (2_000_000_000, 2)], leaps, rule: None, rule_style: 0, desig_mode: 0, indicators: 3, decoy: 0 });
+        }
+        for ntypes in [129usize, 254, 255, 256] {
+            let types: Vec<TypeSpec> = (0..ntypes).map(|i| {
+                let d = format!("{}{}T", (b'A' + (i % 26) as u8) as char, (b'A' + (i / 26 % 2) as u8) as char);
+                TypeSpec { off: -40_000 + i as i32 * 61, dst: i % 3 == 1, desig: d.into_bytes(), isstd: i % 2 == 0, isut: i % 4 == 0 }
+            }).collect();
+            let trans: Vec<(i64, u8)> = (0..600i64).map(|i| (i * 1_000_003 - 300_000_000, ((i * 37) % (ntypes.min(256) as i64)) as u8)).collect();
+            out.push(ZoneSpec { version, types, trans, leaps: vec![(100_000_000, 1)], rule: None, rule_style: 0, desig_mode: 1, indicators: 3, decoy: 0 });
+        }
+        for desig_mode in [2u8, 3, 4, 5, 6, 7] {
+            let trans: Vec<(i64, u8)> = (0..40i64).map(|i| (i * 15_000_000 - 100_000_000, (i % 4) as u8)).collect();
+            let rule = if version >= 2 && desig_mode % 2 == 0 { crate::posix::parse_tz(b"UTC0", false) } else { None };
+            let mut trans = trans;
+            if rule.is_some() {
+                // the footer rule must describe the type in force after the last transition
+                let n = trans.len();
+                trans[n - 1].1 = 3;
+            }
+            out.push(ZoneSpec { version, types: few.clone(), trans, leaps: vec![], rule, rule_style: 0, desig_mode, indicators: desig_mode & 3, decoy: 0 });
+        }
+    }
+    out
+}
+
 pub fn cmd_sweep(args: &[String]) -> i32 {
     install_panic_hook();
-    let kind = args[0].as_str();
+    let kind_arg = args[0].as_str();
+    // "huge": the catalogue of large-count zones, judged like "full"
+    let kind = if kind_arg == "huge" { "full" } else { kind_arg };
     let prop = arg(args, "--prop").unwrap_or("C08").to_string();
     let out_dir = arg(args, "--out").unwrap_or("/tmp/tzsim-out").to_string();
     let worker: usize = arg(args, "--worker").and_then(|s| s.parse().ok()).unwrap_or(0);
@@ -103,7 +147,7 @@ pub fn cmd_sweep(args: &[String]) -> i32 {
     let emit: Option<u64> = arg(args, "--emit-crumb").and_then(|s| s.parse().ok());
     let _ = std::fs::create_dir_all(&out_dir);
     if emit.is_none() {
-        crate::crumb::init(&format!("{out_dir}/crumb-{kind}-{worker}"));
+        crate::crumb::init(&format!("{out_dir}/crumb-{kind_arg}-{worker}"));
     }
     let root = std::env::var("TZSIM_CORPUS").unwrap_or_else(|_| "/verif/corpus".to_string());
     let t0 = Instant::now();
@@ -118,14 +162,31 @@ pub fn cmd_sweep(args: &[String]) -> i32 {
 
     // the work list: corpus files (sampled) + generated files
     let mut work: Vec<(Content, Vec<u8>, String)> = Vec::new();
+    if kind_arg == "huge" {
+        for (g, z) in huge_catalogue().into_iter().enumerate() {
+            if g % of != worker {
+                continue;
+            }
+            match (z.bytes(), z.expected()) {
+                (Some(b), Ok(_)) => work.push((Content::Gen(z), b, format!("huge:{g}"))),
+                (b, e) => {
+                    eprintln!("huge item {g}: bytes {:?} expected {:?}", b.map(|b| b.len()), e.map(|_| ()));
+                    bump(&mut counters, "huge_item_not_writable")
+                }
+            }
+        }
+    }
     for (i, (p, b)) in files.iter().enumerate() {
+        if kind_arg == "huge" {
+            break;
+        }
         let pick = fnv(format!("{seed}:{p}").as_bytes()) % 1000 < permille;
         if pick && i % of == worker {
             work.push((Content::Corpus(p.clone()), b.clone(), format!("corpus:{p}")));
         }
     }
     for g in 0..ngen {
-        if (g as usize) % of != worker {
+        if (g as usize) % of != worker || kind_arg == "huge" {
             continue;
         }
         let mut r = Rng::new(seed ^ 0x5EED_0000 ^ g.wrapping_mul(0x9E37_79B9_7F4A_7C15));
@@ -438,9 +499,9 @@ pub fn cmd_sweep(args: &[String]) -> i32 {
     for d in &digests {
         bin.extend_from_slice(&d.to_le_bytes());
     }
-    let _ = std::fs::write(format!("{out_dir}/nontrivial-{kind}-{worker}.bin"), bin);
+    let _ = std::fs::write(format!("{out_dir}/nontrivial-{kind_arg}-{worker}.bin"), bin);
     let mut j = String::from("{");
-    j.push_str(&format!("\"worker\":{worker},\"kind\":{},\"evaluations\":{evaluations},\"files\":{},\"wall_s\":{:.3},", crate::jstr(kind), work.len(), t0.elapsed().as_secs_f64()));
+    j.push_str(&format!("\"worker\":{worker},\"kind\":{},\"evaluations\":{evaluations},\"files\":{},\"wall_s\":{:.3},", crate::jstr(kind_arg), work.len(), t0.elapsed().as_secs_f64()));
     j.push_str("\"probes\":{");
     j.push_str(&counters.iter().map(|(k, v)| format!("{}:{v}", crate::jstr(k))).collect::<Vec<_>>().join(","));
     j.push_str("},\"faults\":{");
@@ -467,7 +528,7 @@ pub fn cmd_sweep(args: &[String]) -> i32 {
     j.push_str("],\"samples\":[");
     j.push_str(&samples.iter().map(|s| crate::jstr(s)).collect::<Vec<_>>().join(","));
     j.push_str("]}");
-    let _ = std::fs::write(format!("{out_dir}/stats-{kind}-{worker}.json"), j);
+    let _ = std::fs::write(format!("{out_dir}/stats-{kind_arg}-{worker}.json"), j);
     0
 }
 
